@@ -59,17 +59,6 @@ Definition reading (c : case_t) (known : call_ev -> bool) : outcome :=
            fuel empty_env (sc_script c).
 Definition sequential (c : case_t) : outcome := reading c everything_known.
 
-(* multisets of calls *)
-Fixpoint remove_call (x : call_ev) (l : list call_ev) : option (list call_ev) :=
-  match l with
-  | [] => None
-  | y :: r => if call_eqb x y then Some r else option_map (cons y) (remove_call x r)
-  end.
-Fixpoint sub_multiset (a b : list call_ev) : bool :=
-  match a with
-  | [] => true
-  | x :: r => match remove_call x b with Some b' => sub_multiset r b' | None => false end
-  end.
 
 Definition answer_eqb (a : answer) (code : Z) (r : option json) : bool :=
   (an_code a =? code)%Z &&
@@ -95,17 +84,46 @@ Definition observed (c : case_t) : list call_ev := map oc_call (sc_observed c).
 Definition oracle_subset (c : case_t) : bool :=
   match sequential c with Out cs _ _ => sub_multiset (observed c) cs | _ => true end.
 
-(* (2) in a drained history nothing the reading makes is missing *)
+(* (2) in a drained history nothing the reading makes is missing -- where the interpreter promises progress.
+       It does not in general: a `seq` goes on as soon as ONE branch of a par is complete, the first peer that
+       reaches a later call forwards the particle to its target and records RequestSentBy; a peer that later
+       learns the other branch's values finds that state and does not forward again, so a call whose arguments
+       need those values can wait forever (the deliberate optimism of par the property text mentions).
+       Progress is checked for scripts in which nothing runs after a par ([live_shape]: every par, and every
+       fold whose body is a par, is in tail position): there a peer reaches a call only with everything the
+       call can depend on. *)
+Fixpoint no_par (i : instr) : bool :=
+  match i with
+  | IPar _ _ => false
+  | ISeq a b | IXor a b => no_par a && no_par b
+  | IMatch _ _ _ b | IMisMatch _ _ _ b | INew _ _ b _ => no_par b
+  | IFoldScalar _ _ _ b l _ => no_par b && match l with Some x => no_par x | None => true end
+  | _ => true
+  end.
+Fixpoint live_shape (i : instr) : bool :=
+  match i with
+  | IPar a b => live_shape a && live_shape b
+  | ISeq a b => no_par a && live_shape b
+  | IXor a b => live_shape a && live_shape b
+  | IMatch _ _ _ b | IMisMatch _ _ _ b | INew _ _ b _ => live_shape b
+  | IFoldScalar _ _ _ b l _ =>
+      match b with
+      | IPar x y => live_shape x && live_shape y && match l with Some li => live_shape li | None => true end
+      | _ => no_par b && match l with Some li => no_par li | None => true end
+      end
+  | _ => true
+  end.
 Definition oracle_drained (c : case_t) : bool :=
-  negb (sc_drained c) ||
+  negb (sc_drained c) || negb (live_shape (sc_script c)) ||
   match sequential c with Out cs _ _ => sub_multiset cs (observed c) | _ => true end.
+Definition progress_checked (c : case_t) : bool := sc_drained c && live_shape (sc_script c).
 
 (* (3) no call is issued before the reading reaches it: the requests issued up to run s are calls the
        reading reaches when only the answers handed back up to run s are known *)
 Definition ready_at (c : case_t) (s : N) : bool :=
   let answered := map oc_call (filter (fun o => oc_answered o <=? s) (sc_observed c)) in
   let issued := map oc_call (filter (fun o => oc_issued o <=? s) (sc_observed c)) in
-  match reading c (fun x => existsb (call_eqb x) answered) with
+  match reading c (known_in answered) with
   | Out cs _ _ => sub_multiset issued cs
   | _ => true
   end.
